@@ -261,7 +261,8 @@ pub struct Alpha {
 pub fn make_cfg(prop: &str, kt: KtId, n_buckets: u64, a: &Alpha, seed: u64) -> ACfg {
     let p0 = Params::buckets(n_buckets);
     let mut keys: Vec<Vec<u8>> = Vec::new();
-    let bucket = 3 % n_buckets;
+    // the empty key lands where it lands: if it is among the colliding keys, the others join its bucket
+    let bucket = if a.colliding.contains(&0) && kt.arbitrary_bytes_ok() { crate::alphabet::bucket_of(&[], n_buckets) } else { 3 % n_buckets };
     for len in &a.colliding {
         let k = keys_in_bucket(kt, n_buckets, bucket, 1, *len, seed.wrapping_add(keys.len() as u64), &keys);
         keys.extend(k);
@@ -279,7 +280,7 @@ pub fn alphas_small() -> Vec<Alpha> {
     vec![
         Alpha { label: "2 colliding keys x {5,40} bytes", colliding: vec![5, 5], other: vec![], vals: vec![5, 40] },
         Alpha { label: "3 colliding keys (record sizes on class edges) x {20}", colliding: vec![11, 12, 4], other: vec![], vals: vec![20] },
-        Alpha { label: "empty key + colliding-free key x {0,14,15}", colliding: vec![0], other: vec![3], vals: vec![0, 14, 15] },
+        Alpha { label: "empty key + a key colliding with it x {0,14,15}", colliding: vec![0, 3], other: vec![], vals: vec![0, 14, 15] },
         Alpha { label: "2 colliding keys x {1000,2500} (shared large list)", colliding: vec![6, 6], other: vec![], vals: vec![1000, 2500] },
     ]
 }
@@ -451,9 +452,63 @@ pub fn c05(tier: &str, seed: u64) -> i32 {
             run_closure(&mut ctx, &format!("colliding keys of {:?} bytes x {{5,1000}} [bytes]", lens), &cfg, starts, 60_000, 15.0);
         }
     }
+    if ctx.run.violations.is_empty() {
+        c05_big_counts(&mut ctx);
+    }
     crate::props_c08::seeded_runs(&mut ctx, "C05", O_DEC | O_DEC_CONTENTS, clauses, true);
     let rule = format!("{RULE_A}; invariant evaluated on every state by the independent decoder: acyclic chains, keys hash to their bucket, no duplicate key, stored count = reachable keys, bitmap covers non-empty buckets, value references in bounds and unshared, records within their slots, decoded contents = model; non-trivial = states with a chain of >= 2 keys or a non-empty free list");
     ctx.finish_model_checking(&rule, &["states_with_chain_len_ge2", "states_with_nonempty_free_list"])
+}
+
+/// C05: maps with many entries (the stored item count crosses one and two byte boundaries), built by
+/// the real code in one session with deletes in between, decoded by the independent decoder
+pub fn c05_big_counts(ctx: &mut Ctx) {
+    let p = Params::buckets(1024);
+    let mut jobs = Vec::new();
+    let targets: [u64; 6] = [255, 256, 257, 65_535, 65_536, 65_537];
+    for n in targets {
+        let mut steps: Vec<Step> = Vec::new();
+        for i in 0..n + 3 {
+            steps.push(Step::Put(i.to_be_bytes().to_vec(), vec![(i % 251) as u8; (i % 5) as usize]));
+        }
+        for i in 0..3u64 {
+            steps.push(Step::Del((i * 7).to_be_bytes().to_vec()));
+        }
+        jobs.push(seed_job(KtId::Bytes, &p, &steps));
+    }
+    ctx.pool.reinit(vec![]);
+    let old = ctx.pool.watchdog;
+    ctx.pool.watchdog = std::time::Duration::from_secs(60);
+    let results = ctx.pool.map(&jobs, |i| i);
+    ctx.pool.watchdog = old;
+    for (i, r) in results.iter().enumerate() {
+        let n = targets[i];
+        let mut complain = |key: &str, msg: String| {
+            ctx.run.violation(crate::report::Violation { prop: "C05".into(), key: key.to_string(), message: msg.clone(), replay: crate::report::Replay { engine: "seed".into(), config: jobs[i].clone(), case: vec![], story: vec![format!("one session: put {} distinct keys, delete 3 of them, close", n + 3), msg] } });
+        };
+        match r {
+            JobResult::Done(b) => {
+                let mut rd = Rd::new(b);
+                if rd.u8() != 0 {
+                    complain("many-entries:script-fails", format!("building a map of {n} entries fails: {}", rd.string()));
+                    continue;
+                }
+                let _ = rd.string();
+                let img = Image::unpack(&rd.vec());
+                let d = crate::decoder::decode(&img.htx, &img.key, &img.val);
+                if let Some((c, m)) = d.errors.first() {
+                    complain(&format!("many-entries:decode:{}", c.name()), format!("a map of {n} entries does not decode (clause {}): {m}", c.name()));
+                } else if d.contents.len() as u64 != n {
+                    complain("many-entries:contents", format!("a map built from {} puts and 3 deletes decodes to {} entries", n + 3, d.contents.len()));
+                }
+            }
+            JobResult::Crashed { how, .. } => complain("many-entries:crash", format!("building a map of {n} entries does not return normally: {how}")),
+        }
+    }
+    ctx.run.add("decoded_states", targets.len() as i64);
+    ctx.states += targets.len() as u64;
+    ctx.transitions += targets.iter().map(|n| n + 6).sum::<u64>();
+    ctx.runs.push(J::obj(vec![("label", J::s("scripted maps of 255, 256, 257, 65535, 65536, 65537 entries (1024 buckets, long chains), decoded: stored item count = reachable keys etc."))]));
 }
 
 pub fn alphas_large() -> Vec<Alpha> {
@@ -655,6 +710,15 @@ pub fn c15(tier: &str, seed: u64) -> i32 {
         cfg.ro_mode = 2;
         let starts: Vec<Start> = empty_start(&mut ctx, &cfg).into_iter().collect();
         run_closure(&mut ctx, &format!("{} [bytes, {n} bucket(s)] every read-only call alone", a.label), &cfg, starts, 100_000, 30.0);
+    }
+    {
+        // a table larger than one buffer chunk of bitmap (more than 131072 buckets)
+        let a = Alpha { label: "1 key x {5}", colliding: vec![5], other: vec![], vals: vec![5] };
+        let mut cfg = make_cfg("C15", KtId::Bytes, 262_144, &a, seed);
+        cfg.oracles = O_RO;
+        cfg.ro_mode = 2;
+        let starts: Vec<Start> = empty_start(&mut ctx, &cfg).into_iter().collect();
+        run_closure(&mut ctx, "1 key x {5} [bytes, 262144 buckets] every read-only call alone", &cfg, starts, 1_000, 40.0);
     }
     for kt in [KtId::Str, KtId::U64, KtId::I64, KtId::Vu64] {
         let a = &alphas_small()[0];
